@@ -54,3 +54,65 @@ impl IndexMapSV {
 pub fn verif_vec_extend<T>(v: &mut Vec<T>, o: Vec<T>)
     ensures final(v)@ == old(v)@ + o@,
 { unimplemented!() }
+
+// L-merge (C17): the key -> value mapping of a disjoint union does not depend on the order of the operands
+pub open spec fn lookup(s: Seq<(Seq<char>, PathAwareValue)>, k: Seq<char>) -> Option<PathAwareValue>
+    decreases s.len()
+{
+    if s.len() == 0 { None }
+    else if s[0].0 == k { Some(s[0].1) }
+    else { lookup(s.subrange(1, s.len() as int), k) }
+}
+
+pub proof fn lemma_lookup_concat(a: Seq<(Seq<char>, PathAwareValue)>, b: Seq<(Seq<char>, PathAwareValue)>, k: Seq<char>)
+    ensures lookup(a + b, k) == if has_key(a, k) { lookup(a, k) } else { lookup(b, k) }
+    decreases a.len()
+{
+    if a.len() == 0 {
+        assert(a + b =~= b);
+    } else {
+        let a1 = a.subrange(1, a.len() as int);
+        assert((a + b).subrange(1, (a + b).len() as int) =~= a1 + b);
+        assert((a + b)[0] == a[0]);
+        if a[0].0 == k {
+            assert(has_key(a, k));
+        } else {
+            lemma_lookup_concat(a1, b, k);
+            if has_key(a1, k) {
+                let j = choose|j: int| 0 <= j < a1.len() && a1[j].0 == k;
+                assert(a[j + 1].0 == k);
+            }
+            if has_key(a, k) {
+                let j = choose|j: int| 0 <= j < a.len() && a[j].0 == k;
+                assert(j > 0);
+                assert(a1[j - 1].0 == k);
+            }
+        }
+    }
+}
+
+pub proof fn lemma_lookup_absent(a: Seq<(Seq<char>, PathAwareValue)>, k: Seq<char>)
+    requires !has_key(a, k),
+    ensures lookup(a, k) is None
+    decreases a.len()
+{
+    if a.len() > 0 {
+        assert(a[0].0 != k);
+        let a1 = a.subrange(1, a.len() as int);
+        if has_key(a1, k) {
+            let j = choose|j: int| 0 <= j < a1.len() && a1[j].0 == k;
+            assert(a[j + 1].0 == k);
+        }
+        lemma_lookup_absent(a1, k);
+    }
+}
+
+pub proof fn lemma_union_commutes(a: Seq<(Seq<char>, PathAwareValue)>, b: Seq<(Seq<char>, PathAwareValue)>, k: Seq<char>)
+    requires forall|x: Seq<char>| !(has_key(a, x) && has_key(b, x)),
+    ensures lookup(a + b, k) == lookup(b + a, k)
+{
+    lemma_lookup_concat(a, b, k);
+    lemma_lookup_concat(b, a, k);
+    if !has_key(a, k) { lemma_lookup_absent(a, k); }
+    if !has_key(b, k) { lemma_lookup_absent(b, k); }
+}
